@@ -103,3 +103,19 @@ pub fn limit_stack_depth(depth_limit: usize) -> StackDepthLimitOverrideGuard {
 pub fn set_stack_depth_limit(depth_limit: usize) {
 	std::mem::forget(limit_stack_depth(depth_limit));
 }
+
+/// Verification hooks, compiled only under `--cfg jrsonnet_verif`.
+/// Read-only accessors, no behaviour change.
+#[cfg(jrsonnet_verif)]
+pub mod verif {
+	use super::STACK_LIMIT;
+
+	/// Number of frames currently accounted on this thread
+	pub fn current_depth() -> usize {
+		STACK_LIMIT.with(|limit| limit.current_depth.get())
+	}
+	/// Current absolute frame limit of this thread
+	pub fn max_depth() -> usize {
+		STACK_LIMIT.with(|limit| limit.max_stack_size.get())
+	}
+}
